@@ -24,6 +24,11 @@ CHECKS['C09'] = ('every string of <=4 (quick) / <=5 (thorough) tokens over a 28-
                  'level<=1 space, token pumping up to 8 repeats, and the deferred-validation corpus (14 unresolvable '
                  'values x 8 slots x mass/comp/fragment/... calls); outcome must be annotation or ValueError, accepted '
                  'strings must serialize, is_sequence_valid must agree, watchdog for hangs', 'DESIGN.md section 4 / C09')
+CHECKS['C10'] = ('complete enumeration of the bundled vocabularies (1522 Unimod, 1978 PSI-MOD, 1101 XLMOD, 27 '
+                 'monosaccharide entries, read by an independent OBO reader) x every prefix/name/accession spelling x '
+                 '{mod_mass mono, avg, mod_comp, mass of K[spelling]}; tabulated mass vs frozen-table mass of the '
+                 'tabulated composition; enumerated Formula:/Glycan: forms, prefixed shifts and decorations',
+                 'DESIGN.md section 4 / C10')
 NOT_APPLICABLE = {}
 
 
